@@ -393,6 +393,8 @@ VARIANTS += [
     V("twin-union-own-knots-attr", ["C17", "C08"], H, "            for knot in vector:\n                index = all_knots.index(knot)\n", "            for knot in vector.knots:\n                index = all_knots.index(knot)\n", None, None, "the operand's distinct knots walked instead of all its entries", twin=True),
     V("lstsq-row-scaling", ["C12"], H, "        return Linalg.solve(matrix.T @ matrix, matrix.T)\n", "        scale = np.abs(matrix).max(axis=1)\n        matrix = matrix / scale[:, None]\n        return Linalg.solve(matrix.T @ matrix, matrix.T) / scale\n", "LSTSQ-ROWS", "lstsq", "rows normalised before the normal equations"),
     V("eval-zero-from-last-node", ["C01"], H, "    result = np.zeros((npts, len(nodes)), dtype=\"object\")\n", "    result = np.zeros((npts, len(nodes)), dtype=\"object\") + 0 * nodes[-1]\n", "NODE-EACH", "eval_spline_nodes", "typed zero taken from the last node"),
+    V("rev-F51", ["C03"], H, "        try:\n            nodes = tuple(nodes)  # A one-pass iterable is walked only here\n        except TypeError:\n            pass\n        if not self.valid(nodes):\n            raise ValueError\n        try:\n            return tuple(map(self.span, nodes))\n", "        if not self.valid(nodes):\n            raise ValueError\n        try:\n            return tuple(map(self.span, nodes))\n", "WALK-ONCE", "span", "nodes walked by valid() and again by map()"),
+    V("twin-span-materialise-list", ["C03", "C01"], H, "        try:\n            nodes = tuple(nodes)  # A one-pass iterable is walked only here\n        except TypeError:\n            pass\n        if not self.valid(nodes):\n            raise ValueError\n        try:\n            return tuple(map(self.span, nodes))\n", "        try:\n            nodes = list(nodes)\n        except TypeError:\n            pass\n        if not self.valid(nodes):\n            raise ValueError\n        try:\n            return tuple(map(self.span, nodes))\n", None, None, "nodes materialised as a list", twin=True),
     V("twin-derivative-rows-generator", ["C09"], H, "        rows = [\n            i\n            for i in range(knotvector.npts)\n            if knotvector[i + degree] != knotvector[i]\n        ]\n        matrix = np.transpose(matrix)[rows]\n", "        rows = list(i for i in range(1, knotvector.npts) if knotvector[i] < knotvector[i + degree])\n        matrix = np.transpose(matrix)[rows]\n", None, None, "rows selected with a generator and a strict comparison", twin=True),
 ]
 
